@@ -1,6 +1,48 @@
-//! C18 harness commands (stub).
-use std::io::Write;
+//! C18: runs the real ISO Camt053 importer (quick-xml path) and the real book-keeping on its printed output.
+//!
+//! Case line: `<id> cfg=<config YAML> src=<XML text> fund=<ledger text put before the import output, or ~>`
+//! Output   : `<id> import=<I> printed=<enc text> proc=<P>`      (I, P as in c16.rs)
+use std::io::{BufRead, Write};
 
-pub fn run(_args: &[String], _out: &mut dyn Write) -> i32 {
+use okane::import::Format;
+
+use crate::c16::{fields, load_config, run_books, run_import};
+use crate::sx::enc;
+
+pub fn run(_args: &[String], out: &mut dyn Write) -> i32 {
+    let stdin = std::io::stdin();
+    for line in stdin.lock().lines() {
+        let line = line.unwrap();
+        let (id, f) = fields(&line);
+        let (yaml, src) = match (f.get("cfg"), f.get("src")) {
+            (Some(y), Some(s)) => (y.clone(), s.clone()),
+            _ => {
+                writeln!(out, "{} bad-case", id).unwrap();
+                continue;
+            }
+        };
+        let fund = f.get("fund").cloned().unwrap_or_default();
+        let cfg = match load_config(&yaml, "/data/statement.xml") {
+            Ok(c) => c,
+            Err(k) => {
+                writeln!(out, "{} import=(cfgerr {}) printed=~ proc=-", id, k).unwrap();
+                continue;
+            }
+        };
+        let imp = run_import(&cfg, Format::IsoCamt053, &src);
+        let proc_res = match (&imp.printed, fund.is_empty()) {
+            (Some(p), false) => run_books(&fund, p),
+            _ => "-".to_string(),
+        };
+        writeln!(
+            out,
+            "{} import={} printed={} proc={}",
+            id,
+            imp.sexp,
+            enc(imp.printed.as_deref().unwrap_or("")),
+            proc_res
+        )
+        .unwrap();
+    }
     0
 }
